@@ -7,6 +7,8 @@
            memory shows up as a difference)
      RB  = MIR_read_with_func (W1) into a fresh context; T1 = its MIR_output text; RW = bytes of
            MIR_write_with_func of that context ('=' when equal to W1)
+     WF  = '=' when MIR_write (FILE*) gives the bytes W1; RM/TM = every module written on its own with
+           MIR_write_module and read with MIR_read (FILE*) into one context: ok / its text ('=' when T0)
      SC  = MIR_scan_string (T0) into a fresh context; T2 = its MIR_output text
      SC2 = MIR_scan_string (T2) into a fresh context; T3 = its MIR_output text
      X0/X1/X2 = result of loading + linking (interpreter interface) each of the three contexts
@@ -561,6 +563,40 @@ static void run_case (FILE *out, char *desc) {
     fflush (out);
   }
 
+  if (have_w1) {
+    /* the FILE* entry points (MIR_write / MIR_read) and the per-module writer (MIR_write_module): the file
+       holds the bytes the callback writer got; every module written on its own and all of them read into one
+       context give the same text */
+    static MIR_context_t g;
+    static char *fp_buf, *tg;
+    static size_t fp_n, ng;
+    STAGE ("file-io");
+    if (setjmp (err_jmp)) {
+      fprintf (out, "|WF=ERR:%s", err_msg);
+    } else {
+      FILE *mf = open_memstream (&fp_buf, &fp_n);
+      MIR_write (a, mf);
+      fclose (mf);
+      if (fp_n == w1.n && memcmp (fp_buf, w1.p, w1.n) == 0) fprintf (out, "|WF==");
+      else fprintf (out, "|WF=differs:%zu/%zu", fp_n, w1.n);
+      g = MIR_init ();
+      MIR_set_error_func (g, err_func);
+      for (MIR_module_t m = DLIST_HEAD (MIR_module_t, *MIR_get_module_list (a)); m != NULL; m = DLIST_NEXT (MIR_module_t, m)) {
+        char *mb = NULL;
+        size_t mn = 0;
+        mf = open_memstream (&mb, &mn);
+        MIR_write_module (a, mf, m);
+        fclose (mf);
+        mf = fmemopen (mb, mn > 0 ? mn : 1, "rb");
+        MIR_read (g, mf);
+        fclose (mf);
+      }
+      fprintf (out, "|RM=ok");
+      tg = text_of (g, &ng);
+      emit_text (out, "TM", tg, ng, t0, n0);
+    }
+    fflush (out);
+  }
   if (want_exec) {
     STAGE ("exec-original");
     exec_ctx (out, "X0", a);
